@@ -290,9 +290,11 @@ def import_scenario():
     g = GRAMMAR.replace("Model: packages+=Package;", "Model: imports*=Import packages+=Package;\n"
                         "Import: 'import' importURI=STRING;")
     files = {'main.m': 'import "lib.m" package a { package b { class X; } class y uses b.X; } '
-                       'package p { class Q; } package r { class z uses p.Q; class w uses only.L; class v uses a.b.X; }',
+                       'package p { class Q; } package r { class z uses p.Q; class w uses only.L; class v uses a.b.X; '
+                       'class s uses a . b\n.X; }',
              'lib.m': 'package b { class X; } package p { class Q; } package only { class L; } package a { package b { class X; } }'}
-    want = {'y': ('main.m', 'a.b.X'), 'z': ('main.m', 'p.Q'), 'w': ('lib.m', 'only.L'), 'v': ('main.m', 'a.b.X')}
+    want = {'y': ('main.m', 'a.b.X'), 'z': ('main.m', 'p.Q'), 'w': ('lib.m', 'only.L'), 'v': ('main.m', 'a.b.X'),
+            's': ('main.m', 'a.b.X')}       # s: the qualified name written with whitespace around its dots
     problems = []
     tmp = tempfile.mkdtemp(prefix='c10i_')
     try:
